@@ -250,7 +250,7 @@ type lenOff struct {
 	name string
 }
 
-var readWitnesses = []lenOff{{0, 0, "empty"}, {5, 5, "drained"}, {5, 2, "partly-read"}, {5, 0, "unread"}}
+var readWitnesses = []lenOff{{0, 0, "empty"}, {5, 5, "drained"}, {5, 2, "partly-read"}, {5, 0, "unread"}, {1, 0, "single-unread"}, {1, 1, "single-drained"}, {2, 1, "last-byte"}}
 
 func connReadIsRaw(e Event) bool {
 	return e.Kind == "call" && strings.HasPrefix(e.What, "invoke net.Conn.Read") && len(e.Args) > 0 && e.Args[0] == "recv.Conn"
@@ -554,8 +554,14 @@ func c01R5(c *Ctx, r *Report, rule string) {
 						if strings.HasSuffix(e.What, ".buf") && strings.HasPrefix(e.What, "new ") {
 							hv := p.Heap[e.What]
 							empty := hv.Len != nil && hv.Len.Known && hv.Len.N == 0 // nil or a zero-length slice: no bytes handed on
+							shares := false
+							if base, _ := sliceBase(hv.Desc); base == "recv.buf" && !(hv.Known && hv.Nil) {
+								shares = true
+							}
 							if w.l != w.o && !empty {
 								problems = append(problems, "the new connection receives the buffer ("+e.Args[0]+") although "+fmt.Sprint(w.l-w.o)+" byte(s) are still unread in the receiver, which the wrapped conn also reads through: bytes delivered twice")
+							} else if w.l != w.o && shares {
+								problems = append(problems, "the new connection shares the storage of the receiver's buffer ("+e.Args[0]+") while "+fmt.Sprint(w.l-w.o)+" byte(s) in it are still unread: its next prefetch overwrites them")
 							} else if !empty {
 								problems = append(problems, "a drained buffer may be reused only with length 0, got "+e.Args[0])
 							}
@@ -639,78 +645,39 @@ func rootOf(v ssa.Value) ssa.Value {
 // ---------------- R6: router adopts the wrapped connection ----------------
 
 func c01R6(c *Ctx, r *Report, rule string) {
-	r.rule(rule, "in the handler compiled by RouteList.Compile the terminal-detection handler stores its parameter into the very cell from which every later AnyMatch, prefetch, SetReadDeadline and Handle takes the connection", 5)
-	outer := c.Fn("layer4.(RouteList).Compile$1")
-	if outer == nil {
-		r.bad(rule, "layer4.(RouteList).Compile$1", "exists", "-", "compiled handler closure not found")
-		return
-	}
-	name := fname(outer)
-	// the cell of the captured parameter
-	var cellA *ssa.Alloc
-	for _, b := range outer.Blocks {
-		for _, in := range b.Instrs {
-			if st, ok := in.(*ssa.Store); ok {
-				if a, ok := st.Addr.(*ssa.Alloc); ok && st.Val == ssa.Value(outer.Params[0]) {
-					cellA = a
-				}
-			}
-		}
-	}
-	if !r.check(cellA != nil, rule, name, "connection cell", c.pos(outer.Pos()), "the connection parameter lives in a captured cell", "the connection parameter is not captured in a cell: the wrapped connection handed on by a route cannot be adopted") {
-		return
-	}
-	// inner closure storing its param to the cell
-	adopted := false
-	for _, an := range outer.AnonFuncs {
-		if len(an.Params) != 1 || !isConnPtr(an.Params[0].Type()) {
+	r.rule(rule, "the connection the router works on (exploration of the compiled route handler, 1..2 routes, every outcome of matchers/prefetch/handlers, a non-terminal route handing on the same or a wrapped connection): every SetReadDeadline, prefetch, AnyMatch, handler chain and the fallback uses the connection handed on by the last non-terminal route; the adoption of a wrapped connection is exercised", 3)
+	name := "layer4.(RouteList).Compile$1"
+	adopted := 0
+	for n := 1; n <= 2; n++ {
+		paths, err := exploreRouter(c, n, 2)
+		if err != nil || len(paths) == 0 {
+			r.bad(rule, name, fmt.Sprintf("routes=%d connection identity", n), "-", fmt.Sprintf("undecided: %v", err))
 			continue
 		}
-		for i, fv := range an.FreeVars {
-			_ = i
-			if freeVarBinding(fv) != ssa.Value(cellA) {
-				continue
+		var problems []string
+		for _, p := range paths {
+			for _, b := range routerInvariants(p, n, "routing") {
+				if strings.Contains(b, "uses connection") || strings.HasPrefix(b, "model:") {
+					problems = append(problems, b+"   on path: "+p.String())
+				}
 			}
-			for _, ref := range *fv.Referrers() {
-				if st, ok := ref.(*ssa.Store); ok && st.Addr == ssa.Value(fv) && st.Val == ssa.Value(an.Params[0]) {
-					adopted = true
-					r.ok(rule, fname(an), "adopt", c.ipos(st), "last handler stores the connection it receives into the router's connection cell")
+			wrappedAt := -1
+			for i, s := range p.Steps {
+				if s.Kind == "chain" && strings.HasPrefix(s.Note, "nonterminal-wrapped:") {
+					wrappedAt = i
+				}
+				if wrappedAt >= 0 && i > wrappedAt && s.Conn != "" && strings.Contains(p.Steps[wrappedAt].Note, s.Conn) {
+					adopted++
+					wrappedAt = -1
 				}
 			}
 		}
-	}
-	if !adopted {
-		r.bad(rule, name, "adopt", c.pos(outer.Pos()), "no handler stores the connection handed on by a non-terminal route back into the router's connection cell: after e.g. a tls route the next route would match and relay ciphertext")
-	}
-	// uses
-	k := 0
-	for _, ci := range callsIn(outer) {
-		cc := ci.Common()
-		var args []ssa.Value
-		args = append(args, cc.Args...)
-		id := calleeID(ci)
-		for _, a := range args {
-			if !isConnPtr(a.Type()) {
-				continue
-			}
-			k++
-			u, ok := a.(*ssa.UnOp)
-			good := ok && u.Op == token.MUL && u.X == ssa.Value(cellA)
-			r.check(good, rule, name, fmt.Sprintf("use#%d %s", k, id), c.ipos(ci), "connection taken from the router's cell", "a connection other than the router's current one is used here (stale connection after a wrapping handler)")
+		if len(problems) > 3 {
+			problems = append(problems[:3], fmt.Sprintf("... %d more", len(problems)-3))
 		}
+		r.check(len(problems) == 0, rule, name, fmt.Sprintf("routes=%d connection identity", n), "-", fmt.Sprintf("%d paths", len(paths)), "a connection other than the one handed on by the last non-terminal route is used (after e.g. a tls route the next route would match and relay ciphertext): "+strings.Join(problems, "\n"))
 	}
-	// field accesses cx.Conn for SetReadDeadline must also come through the cell
-	for _, b := range outer.Blocks {
-		for _, in := range b.Instrs {
-			if fa, ok := in.(*ssa.FieldAddr); ok && isConnPtr(fa.X.Type()) {
-				u, ok := fa.X.(*ssa.UnOp)
-				good := ok && u.Op == token.MUL && u.X == ssa.Value(cellA)
-				if !good {
-					r.bad(rule, name, "field-use "+fieldName(deref(fa.X.Type()), fa.Field), c.ipos(fa), "a field of a connection other than the router's current one is accessed")
-				}
-			}
-		}
-	}
+	r.check(adopted > 0, rule, name, "adoption exercised", "-", fmt.Sprintf("%d later steps run on a wrapped connection handed on by a route", adopted), "no explored path uses a wrapped connection after a route handed it on: the router's last handler does not adopt it")
 }
 
 // ---------------- R7: handlers hand on a connection that reads through the one they got ----------------
@@ -835,10 +802,61 @@ func c01R7(c *Ctx, r *Report, rule string) {
 					r.ok(rule, name, kk, c.ipos(ci), "passes its own connection on")
 				}
 			default:
+				// a helper of the module that is given the handler's connection and returns the connection(s) to
+				// pass on: every value it returns in that position is its parameter or Wrap on its parameter
+				if okHelper, why := c.wrapHelperResult(root, cx); okHelper && len(live) == 0 {
+					r.ok(rule, name, kk, c.ipos(ci), "passes on "+why)
+					break
+				}
 				r.bad(rule, name, kk, c.ipos(ci), "passes on a connection that is neither its parameter nor Wrap of a conn built on it (origins: "+originKinds(origins(arg, sliceOpts{}))+")")
 			}
 		}
 	}
+}
+
+// wrapHelperResult: v is (a component of) the result of a module helper that received cx; every value the helper
+// returns in that position is its own connection parameter or Wrap called on it.
+func (c *Ctx) wrapHelperResult(v ssa.Value, cx ssa.Value) (bool, string) {
+	idx := 0
+	if ex, ok := v.(*ssa.Extract); ok {
+		idx = ex.Index
+		v = ex.Tuple
+	}
+	call, ok := v.(*ssa.Call)
+	if !ok {
+		return false, ""
+	}
+	g := call.Call.StaticCallee()
+	if g == nil || g.Pkg == nil || !strings.HasPrefix(g.Pkg.Pkg.Path(), modPath) || len(g.Blocks) == 0 {
+		return false, ""
+	}
+	var par *ssa.Parameter
+	for k, a := range call.Call.Args {
+		if k < len(g.Params) && rootOf(a) == cx && isConnPtr(g.Params[k].Type()) {
+			par = g.Params[k]
+		}
+	}
+	if par == nil {
+		return false, ""
+	}
+	rets := returnsOf(g)
+	if len(rets) == 0 {
+		return false, ""
+	}
+	for _, ret := range rets {
+		if idx >= len(ret.Results) {
+			return false, ""
+		}
+		root := rootOf(ret.Results[idx])
+		if root == ssa.Value(par) {
+			continue
+		}
+		w, isCall := root.(*ssa.Call)
+		if !isCall || calleeID(w) != "layer4.(*Connection).Wrap" || rootOf(w.Call.Args[0]) != ssa.Value(par) {
+			return false, ""
+		}
+	}
+	return true, "what " + fname(g) + " returns: Wrap on the connection it was given"
 }
 
 func netConnIface(c *Ctx) *types.Interface {
